@@ -43,26 +43,26 @@ CLAIMED["C15"] = dict(
    tech="deterministic simulation with fault injection: real follow readers on real scratch files inside one testing/synctest bubble, stubbed inotify event queue, writer client and reader scheduled by one seeded tape, fake clock for poll delays, prefix invariant at every step plus bounded liveness, tape shrinking and fresh-process replay")
 
 CLAIMED["C06"] = dict(
-   text="Seeded search over directory trees x argument forms x -z/-R/--readers x one injected open or read failure, with the whole CLI (`rare filter`) running in-process under the tape-driven scheduler; oracle: own reference expansion of the arguments, per-input expected (source, line, text) sets (stdlib gzip on a private copy decides what -z delivers), open counts from the fs seam, `[Log]` lines naming each failing input, and the exit-status table; termination monitor catches leaked reader slots. Gzip files may have several members; trees may hold symbolic links (to a file, to a directory, dangling: -R may hand them out or leave them alone, the regular files next to them are read exactly once); stdin may be a long stream from a producer that pauses (time flushes with partial batches, slow stages). Evidence over explored runs, not proof.",
+   text="Seeded search over directory trees x argument forms x -z/-R/--readers x one injected open or read failure, with the whole CLI (`rare filter`) running in-process under the tape-driven scheduler; oracle: own reference expansion of the arguments, per-input expected (source, line, text) sets (stdlib gzip on a private copy decides what -z delivers), open counts from the fs seam, `[Log]` lines naming each failing input, and the exit-status table; termination monitor catches leaked reader slots. Gzip files may have several members; trees may hold symbolic links (to a file, to a directory, dangling: -R may hand them out or leave them alone, the regular files next to them are read exactly once); a failure is reported once per mention; with one reader and one worker the same command must print the same bytes under another schedule; stdin may be a long stream from a producer that pauses (time flushes with partial batches, slow stages). Evidence over explored runs, not proof.",
    ref="DESIGN.md section 5 C06, 13.8 and 13.12",
    note=NOTE + " Oracles: stdlib compress/gzip for decompressed content, filepath.Match for one glob component, own tree walk. Content of a bit-flipped gzip stream is not checked (only that it is reported and the other inputs are complete).",
    tech=TECH)
 
 CLAIMED["C03"] = dict(
-   text="Seeded search over scenarios (corpus x aggregator command line) each executed in-process under 3-5 variants that must not matter (tuning flags, file order, division of lines among files, gzip, stdin, schedule, read latencies and therefore the number of intermediate renders in fake time, map-iteration salt). Oracle 1: exit status, CSV bytes and snapshot output identical across variants. Oracle 2: the CSV, parsed by a strict RFC 4180 parser, the summary counts and the exit status equal an independent sequential fold (stdlib regexp + the world's own template evaluator). A free-running -race leg re-runs scenarios (same oracles) truly in parallel. Evidence over explored scenarios, not proof.",
-   ref="DESIGN.md section 5 C03 and 13.8",
-   note=NOTE + " Kept out on purpose: numeric/contextual/date sorts (C13's world), spark without --notruncate, order-sensitive reduce accumulators, zero/negative totals for bar-style renderers (C14), injected read errors (C06). One known finding (padding of table/heatmap/spark/bars depends on render cadence) is listed in known_findings.json.",
+   text="Seeded search over scenarios (corpus x aggregator command line) each executed in-process under 3-5 variants that must not matter (tuning flags, file order, division of lines among files, gzip, stdin, schedule, read latencies and therefore the number of intermediate renders in fake time, map-iteration salt). Kinds include histograms with --atleast and with the empty string as key, tables and heatmaps whose view is smaller than the data, and `reduce` with order-sensitive accumulators (one reader, one worker, the order of the lines kept, also through `-R` roots). Oracle 1: exit status, CSV bytes and snapshot output identical across variants. Oracle 2: the CSV, parsed by a strict RFC 4180 parser, the summary counts and the exit status equal an independent sequential fold (stdlib regexp + the world's own template evaluator). A free-running -race leg re-runs scenarios (same oracles) truly in parallel. Evidence over explored scenarios, not proof.",
+   ref="DESIGN.md section 5 C03, 13.8, 13.13 and 13.15",
+   note=NOTE + " Kept out on purpose: numeric/contextual/date sorts (C13's world), spark without --notruncate, zero/negative totals for bar-style renderers (C14), injected read errors (C06). One known finding (padding of table/heatmap/spark/bars depends on render cadence) is listed in known_findings.json.",
    tech=TECH + "; metamorphic comparison across seeded variants of one scenario" + RACE_TECH)
 
 CLAIMED["C13"] = dict(
-   text="Order-independence for every key set, the meaning of a mode for key families where it is not in doubt. Seeded search over scenarios (a multiset of keys/counts from comparator-stressing pools x histo/table/bars x sort mode and modifier), each run in-process under 4-6 variants that change only map-iteration salt, arrival order, schedule/worker count, division among files and read latencies (number of intermediate renders on the fake clock, which feeds the sorter instance a command keeps for life); the row/column label sequences of the final snapshots must be identical, `:reverse` must mirror, equivalent spellings must agree; for the key-based modes the screen of every periodic render (rebuilt through a hook in the terminal's WriteForLine) must order every pair of labels as the final output does. One scenario in three uses clean families (distinct integers/decimals, weekday/month names, dates of one layout, distinct totals) with independent sort modes for rows and columns; there the displayed order must equal the documented one (magnitude, calendar position, chronological, larger totals first, bytes). `rare reduce` (group order by key or by a --sort expression with ties, --sort-reverse) is included; a free-running -race leg runs key sets above a thousand (code that only goes parallel above a size threshold). Evidence over explored scenarios, not proof.",
+   text="Order-independence for every key set, the meaning of a mode for key families where it is not in doubt. Seeded search over scenarios (a multiset of keys/counts from comparator-stressing pools x histo/table/bars x sort mode and modifier), each run in-process under 4-6 variants that change only map-iteration salt, arrival order, schedule/worker count, division among files and read latencies (number of intermediate renders on the fake clock, which feeds the sorter instance a command keeps for life); the row/column label sequences of the final snapshots must be identical, `:reverse` must mirror, equivalent spellings must agree; for the key-based modes the screen of every periodic render (rebuilt through a hook in the terminal's WriteForLine) must order every pair of labels as the final output does. One scenario in three uses clean families (distinct integers/decimals, weekday/month names, dates of one layout, distinct totals) with independent sort modes for rows and columns; there the displayed order must equal the documented one (magnitude, calendar position, chronological, larger totals first, bytes). `rare reduce` (group order by key or by a --sort expression with ties, --sort-reverse) is included, as are row totals at the ends of int64 under the value sort, grouped arrival and sort names typed with capital letters (where the tree accepts them); a free-running -race leg runs key sets above a thousand (code that only goes parallel above a size threshold). Evidence over explored scenarios, not proof.",
    ref="DESIGN.md section 5 C13, 13.7 and 13.12",
    note=NOTE + " The meaning of a mode is decided only for the clean families (for arbitrary mixtures only order-independence, mirroring and spelling equivalence are). One known finding (--sort date with keys of mixed layouts) is listed in known_findings.json.",
    tech=TECH + "; metamorphic comparison of label sequences across seeded variants of one data set, reference order for clean key families" + RACE_TECH)
 
 CLAIMED["C10"] = dict(
-   text="Seeded search over templates (tree generator over the registered helper table, every helper taking its turn as outermost call; funcs files through the real loader with comments/blank lines/continuations, lines that are no definition, definitions calling earlier ones and user functions nested in their own arguments; math stages; time parsing with detected and explicit layouts; {time live|delta|now}) evaluated by 1-4 workers that share one compiled, optimised expression and its context pools under the tape-driven scheduler with the fake clock advancing between lines; every emitted key is compared with a sequential un-optimised evaluation (funcs files: of the inlined tree with builtins only); live/delta must lie between the read and the consumption instant of their line, now must be the compile instant. A free-running -race leg covers pooled objects handed to two workers at once. One run in five goes through the command line: a funcs file loaded with --funcs under drawn global output flags (--noformat, --color/--nocolor, --nounicode, --notrim) must behave like its inlined body in `rare filter`, and `rare expression` must print the same text with and without --no-optimize, with the funcs file and inlined. Evidence over explored runs, not proof.",
-   ref="DESIGN.md section 5 C10, 13.7 and 13.12",
+   text="Seeded search over templates (tree generator over the registered helper table, every helper taking its turn as outermost call; funcs files through the real loader with comments/blank lines/continuations, lines that are no definition, definitions calling earlier ones and user functions nested in their own arguments; math stages; lookup tables; time parsing with detected and explicit layouts; funcs files split in two or named through RARE_FUNC_FILES; {time live|delta|now}) evaluated by 1-4 workers that share one compiled, optimised expression and its context pools under the tape-driven scheduler with the fake clock advancing between lines; every emitted key is compared with a sequential un-optimised evaluation (funcs files: of the inlined tree with builtins only); live/delta must lie between the read and the consumption instant of their line, now must be the compile instant. A free-running -race leg covers pooled objects handed to two workers at once. One run in five goes through the command line: a funcs file loaded with --funcs under drawn global output flags (--noformat, --color/--nocolor, --nounicode, --notrim) must behave like its inlined body in `rare filter`, and `rare expression` must print the same text with and without --no-optimize, with the funcs file and inlined. Evidence over explored runs, not proof.",
+   ref="DESIGN.md section 5 C10, 13.7, 13.12-13.15",
    note=NOTE + " Templates whose reference form does not compile or panics are redrawn (C08's subject); file-reading helpers (load/lookup/haskey), color and nested-loop templates that exceed the step budget are not exercised.",
    tech=TECH + "; plus a free-running -race leg for shared pools")
 
